@@ -19,6 +19,15 @@ pub struct OracleOut {
 pub fn check_all(h: &Hist, out: &Outcome, props: &[&str]) -> OracleOut {
     let mut o = OracleOut { violations: vec![], probes: BTreeMap::new(), nontrivial: false };
     engine_rules(h, out, &mut o);
+    if h.plan.has_tag("huge_ttl") {
+        // deadlines no clock value can reach: the reference models (u64 nanoseconds) do not
+        // apply; only the engine rules and the dedicated rules below judge these plans
+        if props.contains(&"C03") {
+            huge_ttl_rules(h, &mut o);
+        }
+        o.nontrivial = true;
+        return o;
+    }
     if props.iter().any(|p| ["C03", "C04", "C05", "C09"].contains(p)) {
         let mut want: Vec<&str> = props.to_vec();
         if props.contains(&"C09") {
@@ -66,6 +75,38 @@ pub fn check_all(h: &Hist, out: &Outcome, props: &[&str]) -> OracleOut {
     let mut seen = std::collections::BTreeSet::new();
     o.violations.retain(|v| seen.insert((v.prop.clone(), v.rule.clone(), v.fingerprint.clone())));
     o
+}
+
+/// C03 for TTLs whose deadline is unreachable: after the insert was accepted and the cache has
+/// quiesced (one client, roomy cache), the entry is served, reports a remaining TTL, and never
+/// goes away because of time.
+fn huge_ttl_rules(h: &Hist, o: &mut OracleOut) {
+    let mut cur: BTreeMap<u64, (Val, u64, u64)> = BTreeMap::new(); // key -> (value, ttl code, seq of return) of the last accepted write
+    for op in h.ops.iter().filter(|x| x.client == 0 && x.returned()) {
+        match (&op.op, op.res.as_ref().unwrap()) {
+            (Op::Insert { k, ttl_ns, .. }, Res::Bool(true)) => {
+                cur.insert(*k, (op.val.unwrap(), *ttl_ns, op.ret_seq.unwrap()));
+            }
+            (Op::Insert { k, .. }, _) | (Op::Remove { k }, _) => {
+                cur.remove(k);
+            }
+            (Op::Get { k, .. }, Res::Got(g)) => {
+                if let Some((v, t, ws)) = cur.get(k) {
+                    if *t >= u64::MAX - 3 && h.quiescent_between(*ws, op.inv_seq).is_some() && g.map(|x| x.0) != Some(*v) {
+                        o.violations.push(violk("C03", "R-huge-ttl-not-served", op.ret_seq.unwrap(), *k, "an entry inserted with a TTL beyond any reachable deadline is not served", format!("get({}) returned {:?}, expected {:?} (ttl code {})", k, g.map(|x| x.0), v, u64::MAX - t)));
+                    }
+                }
+            }
+            (Op::GetTtl { k }, Res::Ttl(t)) => {
+                if let Some((_, code, ws)) = cur.get(k) {
+                    if *code >= u64::MAX - 3 && h.quiescent_between(*ws, op.inv_seq).is_some() && t.map_or(true, |x| x < 500 * 365 * 86400 * 1_000_000_000) {
+                        o.violations.push(violk("C03", "R-huge-ttl-not-reported", op.ret_seq.unwrap(), *k, "get_ttl does not report the remaining time of an entry with a TTL beyond any reachable deadline", format!("get_ttl({}) returned {:?}", k, t)));
+                    }
+                }
+            }
+            _ => {}
+        }
+    }
 }
 
 /// Panics and stuck tasks, attributed to the property that owns the operation involved.
